@@ -27,8 +27,8 @@ def oracle(sc, pt, P, key=None, reading=None, k_edit=None):
     AU = sorted(sc.control, key=lambda s: s.name)
     sub = {k: sympy.Rational(v.numerator, v.denominator) for k, v in pt.items()}
     F = sympy.Matrix([sc.state_model[s] for s in AS])
-    G = F.jacobian(AS).subs(sub) if AS else sympy.zeros(0, 0)
-    V = F.jacobian(AU).subs(sub) if AU else sympy.zeros(len(AS), 0)
+    G = scenarios.jacobian_at(F, AS, sub) if AS else sympy.zeros(0, 0)
+    V = scenarios.jacobian_at(F, AU, sub) if AU else sympy.zeros(len(AS), 0)
     M = sympy.diag(*[rat(sc.process_noise[u]) for u in AU]) if AU else sympy.zeros(0, 0)
     out = {"state": F.subs(sub), "covariance": G * P * G.T + V * M * V.T, "G": G, "V": V, "M": M}
     if key is not None:
@@ -36,7 +36,7 @@ def oracle(sc, pt, P, key=None, reading=None, k_edit=None):
         rn = sorted(sm)
         x = sympy.Matrix([sub[s] for s in AS])
         h = sympy.Matrix([sm[r] for r in rn])
-        H = h.jacobian(AS).subs(sub)
+        H = scenarios.jacobian_at(h, AS, sub)
         hx = h.subs(sub)
         Q = sympy.diag(*[rat(sc.sensor_noises[key][r]) for r in rn])
         S = H * P * H.T + Q
@@ -257,14 +257,14 @@ def ulp_boundary_grid(sc, seed=0):
     return problems
 
 
-def native_sequence(seed=0, linear=False, k_edit=3.0, container="set", assumptions=False, scale=None, cse=None):
+def native_sequence(seed=0, linear=False, k_edit=3.0, container="set", assumptions=False, scale=None, cse=None, magnitude=False):
     """STATEFUL bounded check: one filter instance with two sensors of DIFFERENT reading dimension, driven through a sequence of
     Jacobian evaluations at different points (different dt), predictions (dt of the point, 0, another dt) and alternating
     sensor updates (near and far readings).  Every result is compared with the exact oracle at ITS OWN inputs, so state kept
     between calls (caches, remembered thresholds, reused buffers) shows up.  Returns (problems, scenario)."""
     import numpy as np
 
-    sc = scenarios.Scenario(3, 1, 2, [1, 2], seed=seed, linear=linear, assumptions=assumptions)
+    sc = scenarios.Scenario(3, 1, 2, [1, 2], seed=seed, linear=linear, assumptions=assumptions, magnitude=magnitude)
     if scale:
         # very precise sensors on a very small prior (values far below 1e-6): supplied noise must be used as supplied
         sc.sensor_noises = {kx: {r: v * scale for r, v in m.items()} for kx, m in sc.sensor_noises.items()}
